@@ -1,6 +1,6 @@
 """What MANIFEST.json claims.  Only what is built and green on the unchanged tree with several seeds."""
 
-HOOK_COMMITS = ["f83646d"]
+HOOK_COMMITS = ["f83646d", "b42568c"]
 
 NOTES = ("Model-based verification with explicit TLA+ specifications (see DESIGN.md). Every verdict comes from behaviour of "
          "the real code rebuilt from /repo's working tree; TLC model-checks the mechanism specs, generates the histories "
@@ -101,9 +101,25 @@ CLAIMED["C19"] = {
     "technique": "TLA+ crash-interleaving model checking of the file protocol + SIGKILL fault enumeration at every hook step of the real dump + TLC trace validation of directory projections",
 }
 
+CLAIMED["C17"] = {
+    "level": "model_checking",
+    "text": ("BreadthFirst.tla models the termination protocol of Traversal.BreadthFirst (coordinator, N workers, descent counter, "
+             "completion channel of capacity 2N, context cancellation, failing driver calls) and is model-checked for safety and "
+             "termination under fairness (N=2..3; every generated tree with 2 workers); Pipe.tla models BufferedPipe (FIFO, exactly once, "
+             "flush on close, writer never blocked). TLC enumerates every segment tree x failing segment x cancellation; each plan is run "
+             "on the real code free-running under -race and under five adversarial gate schedules at the verifhook points, and the "
+             "driver-call / return events are validated by TLC against the statement (each segment once, after its parent, nothing after "
+             "return, nil only when complete, error iff a failure, no goroutine left)."),
+    "design_ref": "DESIGN.md 4/C17",
+    "note": ("Trees of <= 5 segments, 1..8 workers; schedules are sampled (free-running) or shaped by gate policies, not enumerated on the "
+             "real code; the sequential traversal helpers of ops/ (paths, terminals, skip/limit) are NOT covered; the data race on "
+             "PathSegment.size under Descend is not part of the statement. Hooks: 5 add-only lines in traversal.go (commit b42568c)."),
+    "technique": "TLA+ model checking (safety + liveness) of the termination protocol and the pipe, TLC-enumerated plans, gate-controlled and free-running executions of the real code validated against the P-spec by TLC",
+}
+
 _NB = "not built yet in this round (design in DESIGN.md section 4)"
 NOT_APPLICABLE = {
     "C01": "needs the emitted SQL executed on PostgreSQL; no SQL engine exists in this sandbox and a TLA+ model of PostgreSQL would verify the model, not DAWGS (DESIGN.md section 5)",
     "C02": _NB, "C03": _NB, "C04": _NB, "C05": _NB, "C06": _NB, "C07": _NB, "C08": _NB, "C09": _NB, "C10": _NB,
-    "C11": _NB, "C17": _NB, "C18": _NB, "C20": _NB,
+    "C11": _NB, "C18": _NB, "C20": _NB,
 }
